@@ -42,7 +42,7 @@ else:
         res["pytest_tail"] = t.stdout[-600:]
         m = re.search(r"(\d+) passed", t.stdout)
         res["tests_passed"] = int(m.group(1)) if m else None
-        res["tests_ok"] = bool(m) and "failed" not in t.stdout and int(m.group(1)) >= 64
+        res["tests_ok"] = bool(m) and not re.search(r"\b\d+ failed", t.stdout) and not re.search(r"\b\d+ error", t.stdout) and int(m.group(1)) >= 64
 res["confirmed"] = bool(res.get("patch_applies") and res.get("demo_without_change_rc") == 0 and res.get("demo_with_change_rc", 0) != 0 and res.get("imports") and (res.get("tests_ok", True)))
 json.dump(res, open(f"{work}/confirm.json", "w"), indent=1)
 print(json.dumps(res, indent=1))
